@@ -36,15 +36,36 @@ func TestDrv_C20(t *testing.T) {
 	cases, obs := 0, 0
 	var samples []any
 	bounds := []time.Duration{5e6, 1e7, 25e6, 5e7, 1e8, 25e7, 5e8, 1e9, 25e8, 5e9, 1e10}
+	lateTrials := 0
 	for round := 0; round < rounds; round++ {
-		for _, n := range sizes {
+		szs := sizes
+		if round == 0 {
+			// and a hundred small sets whose results are all observed at once by sixteen goroutines *before* the metrics are
+			// registered (marked by a negative size): what is exported afterwards still counts every one of them
+			for k := 0; k < 100; k++ {
+				szs = append(szs, -16)
+			}
+		}
+		for _, n := range szs {
+			late := n < 0
+			if late {
+				n = -n
+			}
 			for _, concurrent := range []bool{false, true} {
+				if late {
+					if !concurrent {
+						continue
+					}
+					lateTrials++
+				}
 				cases++
 				synctest.Test(t, func(t *testing.T) { // virtual time: the series are created and live inside the bubble
 					pm := prom.NewMetrics()
 					reg := prometheus.NewRegistry()
-					must(pm.Register(reg))
-					if cases%3 == 1 { // a registration that the registry refuses (the same metrics again, another instance) leaves the first one serving
+					if !late {
+						must(pm.Register(reg))
+					}
+					if cases%3 == 1 && !late { // a registration that the registry refuses (the same metrics again, another instance) leaves the first one serving
 						if pm.Register(reg) == nil || prom.NewMetrics().Register(reg) == nil {
 							tr.Emit("Panic", KV{"what": "Register", "value": "a second registration of the same metric names was accepted"})
 						}
@@ -143,15 +164,18 @@ func TestDrv_C20(t *testing.T) {
 								}()
 								defer func() { close(stop); <-done }()
 							}
+							start := make(chan struct{}) // (the observers begin together)
 							for g := 0; g < 16; g++ {
 								wg.Add(1)
 								go func(g int) {
 									defer wg.Done()
+									<-start
 									for i := lo + g; i < hi; i += 16 {
 										observe(&rs[i])
 									}
 								}(g)
 							}
+							close(start)
 							wg.Wait()
 						} else {
 							for i := lo; i < hi; i++ {
@@ -206,7 +230,14 @@ func TestDrv_C20(t *testing.T) {
 						}
 					}
 					for ph := 0; ph < 3; ph++ {
-						phase(ph*n/3, (ph+1)*n/3)
+						if late { // everything at once, then the registration
+							if ph == 0 {
+								phase(0, n)
+								must(pm.Register(reg))
+							}
+						} else {
+							phase(ph*n/3, (ph+1)*n/3)
+						}
 						gather()
 						time.Sleep(35 * time.Minute)
 					}
